@@ -117,6 +117,13 @@ public:
       rxn(o, s->rxn_x);
       o << "\n";
     }
+    if (e->s_eminus) {   // e- is not a member of s_x; its log activity is -pe
+      class species* s = e->s_eminus;
+      o << "s " << s->name << " " << s->type << " " << hexd(s->z) << " " << hexd(s->lm) << " " << hexd(s->lg) << " " << hexd(s->la)
+        << " " << hexd(s->lk) << " " << hexd(0.0) << " " << hexd(s->alk) << " " << s->gflag << " 00 | rx 0 | k";
+      for (int i = 0; i <= delta_v; i++) o << " " << hexd(0.0);
+      o << "\n";
+    }
     for (size_t i = 0; i < e->phases.size(); i++) {
       class phase* p = e->phases[i];
       if (p->in != TRUE || p->type != SOLID) continue;
